@@ -47,9 +47,9 @@ theorem mark_debt_zero_or_marked (c : Ctx) (root : List Slot) (fault : TraceFaul
 theorem debt_nonneg (m : Metrics) : 0 ≤ m.allocationDebt := GcArena.debt_nonneg m
 
 /-- An arena holding no allocations has no debt, hence every debt-driven call returns at once
-    without a step — whatever phase it is in.  This is the mechanism behind the known finding
-    `stw-returns-sweeping-when-arena-emptied`: when a stop-the-world sweep releases the last
-    allocation, `collect_debt` / `cycle_debt` stop one step before the `Sweep → Sleep` switch. -/
+    without a step — whatever phase it is in.  (On the pinned tree this was the mechanism behind
+    defect D5: when a sweep released the last allocation, `collect_debt` / `cycle_debt` stopped one
+    step before the `Sweep → Sleep` switch.) -/
 theorem empty_arena_never_collects (c : Ctx) (root : List Slot) (stop : Stop) (f : TraceFault)
     (h : c.metrics.totalGcs = 0) : c.doCollection root .payDebt stop f = (c, .returned) := by
   have : c.metrics.hasDebt = false := by
@@ -65,41 +65,38 @@ theorem run_cinv (n : Nat) (ops : List Op) (halive : ((Arena.new n).run ops).ali
 
 /-! ### Stop-the-world pacing -/
 
-/-- Full statement of the stop-the-world clause as the property gives it.  It is **false** of the
-    model and of the implementation in exactly the corner above (replay:
-    corpus/C09-stw-empty-arena.ops; the finding is listed in known_findings.txt):
-    `stop_the_world_claim_false`. -/
-def stop_the_world_claim : Prop :=
+/-- Full statement of the stop-the-world clause as the property gives it.  On the pinned tree it
+    was **false** in one corner (defect D5: a debt-driven call whose sweep released the arena's
+    last allocation returned Sweeping, one step before the `Sweep → Sleep` switch, because an
+    empty arena reports zero debt; replay corpus/C09-stw-empty-arena.ops).  After the repair — the
+    loop never stops on the debt test in `Sweep` with nothing left to sweep, `Ctx.debtBreak` — it
+    holds: `stop_the_world`. -/
+def stop_the_world_statement : Prop :=
   ∀ (c : Ctx) (root : List Slot) (c' : Ctx), CInv c root [] →
     c.metrics.pacing.markFactor = 0 → c.metrics.pacing.traceFactor = 0 → c.metrics.pacing.keepFactor = 0 →
     c.metrics.pacing.dropFactor = 0 → c.metrics.pacing.freeFactor = 0 → 0 < c.metrics.allocationDebt →
     c.doCollection root .payDebt .full none = (c', .returned) → c'.phase = .sleep
 
-/-- What holds instead: it returns Sleeping, or the arena holds no allocation any more. -/
-def stop_the_world_partial_statement : Prop :=
-  ∀ (c : Ctx) (root : List Slot) (c' : Ctx), CInv c root [] →
-    c.metrics.pacing.markFactor = 0 → c.metrics.pacing.traceFactor = 0 → c.metrics.pacing.keepFactor = 0 →
-    c.metrics.pacing.dropFactor = 0 → c.metrics.pacing.freeFactor = 0 → 0 < c.metrics.allocationDebt →
-    c.doCollection root .payDebt .full none = (c', .returned) → c'.phase = .sleep ∨ c'.metrics.totalGcs = 0
-
 /-- **Stop-the-world, `collect_debt`**: with all five work factors zero, a call made with positive
-    debt does not return until the collector is Sleeping again — unless the sweep emptied the
-    arena. -/
-theorem stop_the_world_partial : stop_the_world_partial_statement := by
+    debt does not return until the collector is Sleeping again. -/
+theorem stop_the_world : stop_the_world_statement := by
   intro c root c' hinv h1 h2 h3 h4 h5 hd hr
   exact doCollection_stw hinv ⟨h1, h2, h3, h4, h5⟩ hd hr
 
 /-- The same for every fault position, and for `cycle_debt`. -/
 theorem stop_the_world_any (c : Ctx) (root : List Slot) (fault : TraceFault) (c' : Ctx)
     (hinv : CInv c root []) (hz : ZeroWork c.metrics.pacing) (hd : 0 < c.metrics.allocationDebt) :
-    (c.doCollection root .payDebt .full fault = (c', .returned) →
-      c'.phase = .sleep ∨ c'.metrics.totalGcs = 0) ∧
-    (c.doCollection root .payDebt .finishCycle fault = (c', .returned) →
-      c'.phase = .sleep ∨ c'.metrics.totalGcs = 0) :=
+    (c.doCollection root .payDebt .full fault = (c', .returned) → c'.phase = .sleep) ∧
+    (c.doCollection root .payDebt .finishCycle fault = (c', .returned) → c'.phase = .sleep) :=
   ⟨doCollection_stw hinv hz hd, doCollection_stw_cycle hinv hz hd⟩
 
+/-- A debt-driven call never returns parked in `Sweep` with nothing left to sweep, for any pacing
+    (unless it was entered that way with no debt, or its `Stop` is at most `AtSweep`). -/
+theorem never_parked (c : Ctx) (ru : RunUntil) (h : c.debtBreak ru = true) :
+    ¬ (c.phase = .sweep ∧ c.rest = []) := debtBreak_not_parked h
+
 /-- One unreachable allocation under `Pacing::STOP_THE_WORLD`, fully marked, the sweep about to
-    start. -/
+    start: the state of the former corner. -/
 def lastOne : List Op := [
   .setPacing Pacing.stopTheWorld,
   .enter .mutate, .alloc true [none], .leave,
@@ -115,19 +112,14 @@ theorem lastOne_debt : 0 < ((Arena.new 1).run lastOne).ctx.metrics.allocationDeb
   simp only
   grind
 
-/-- The full stop-the-world clause is false: from `lastOne`, `collect_debt` (positive debt, all
-    work factors zero) sweeps the only allocation away and returns **Sweeping**. -/
-theorem stop_the_world_claim_false : ¬ stop_the_world_claim := by
-  intro h
-  have h0 := run_cinv 1 lastOne (by decide) (by decide)
-  have hd := lastOne_debt
-  have hcall := doCollection_sweep_last (c := ((Arena.new 1).run lastOne).ctx)
-    (root := ((Arena.new 1).run lastOne).root) (stop := .full) (fault := none)
-    (by decide) (by decide) (by decide) (by simpa [Metrics.hasDebt] using hd) (by decide)
-  have := h _ _ _ h0 (by rw [lastOne_metrics]; rfl) (by rw [lastOne_metrics]; rfl)
-    (by rw [lastOne_metrics]; rfl) (by rw [lastOne_metrics]; rfl) (by rw [lastOne_metrics]; rfl) hd hcall
-  revert this
-  decide
+/-- Non-vacuity: `lastOne` satisfies every hypothesis of `stop_the_world` (zero work factors,
+    positive debt, invariant). -/
+example : CInv ((Arena.new 1).run lastOne).ctx ((Arena.new 1).run lastOne).root [] ∧
+    ZeroWork ((Arena.new 1).run lastOne).ctx.metrics.pacing ∧
+    0 < ((Arena.new 1).run lastOne).ctx.metrics.allocationDebt :=
+  ⟨run_cinv 1 lastOne (by decide) (by decide),
+   ⟨by rw [lastOne_metrics]; rfl, by rw [lastOne_metrics]; rfl, by rw [lastOne_metrics]; rfl,
+    by rw [lastOne_metrics]; rfl, by rw [lastOne_metrics]; rfl⟩, lastOne_debt⟩
 
 /-! ### The ρ-bound -/
 
@@ -149,8 +141,8 @@ theorem credits_bounded (n : Nat) (ops : List Op) (ρ : Rat)
     `PlainMet.ghost`, `FwdMet.ghost`, `CFrame.ghost`).  Suppose the cycle woke in debt and the debt
     was not artificially reduced since (`0 < Aw - wakeup + artificial`), and the pacing factors'
     per-object work paths each sum to at most `ρ`.  If a `cycle_debt` call then returns with the
-    cycle still unfinished — and the arena non-empty: known finding
-    `stw-returns-sweeping-when-arena-emptied` — then `A' (1 - ρ) < ρ H`.
+    cycle still unfinished — and the arena non-empty (an empty arena reports zero debt by
+    definition, so no bound can follow from "the debt is paid") — then `A' (1 - ρ) < ρ H`.
 
     (`ρ < 1` is not needed for this form; it is for the quotient form `rho_bound_quotient`.  The
     state may even be asleep: the call then wakes it.) -/
